@@ -37,6 +37,8 @@ def eval_pred(test: ast.AST, env: Dict[str, object], unknown: Dict[str, bool] = 
     k = norm(test)
     if k in unknown:
         return unknown[k]
+    if isinstance(test, ast.Name) and test.id in env and isinstance(env[test.id], bool):
+        return env[test.id]
     if isinstance(test, ast.BoolOp):
         vals = [eval_pred(v, env, unknown) for v in test.values]
         return all(vals) if isinstance(test.op, ast.And) else any(vals)
